@@ -69,6 +69,15 @@ CLAIMED = {
               "real loader, re-encoding byte-equal to the real file), incl. all size boundaries, 16 dbs, TTLs shorter/longer than a measured downtime, off-grammar and mutated files."),
         note=TB + "The list/zset load loops are summarised as 'first element then the rest' (argued, validated on corrupted files, not proved equal to the per-element loop); NaN scores excluded; a list headed by the internal stream marker string is a recorded finding (needs a format change).",
         ref="DESIGN.md section 5 C09"),
+    "C17": dict(
+        text=("Proof: gate totality - for EVERY command name (any byte string), argument list, dispatch function and non-authenticated state the reply is an error and the server state is "
+              "unchanged; only the exact password authenticates (iff, for all argument lists); failed AUTH, PING, QUIT are harmless; authentication is per connection over any interleaved "
+              "event history; a refused command is refused at any pipeline position; the full statement no_access_without_auth for the order of processing regenerated from server.rs "
+              "(pre-gate list empty), with table theorems by decide (allow-list = AUTH/PING/QUIT, nothing acts before the gate, state writers, all 132 dispatched names classified) - "
+              "Lean theorems; the real server with --requirepass is driven over TCP with every dispatched and ~125 hostile names x 28 connection situations x 4 pipeline positions, an "
+              "authenticated control connection checking for side effects and leaked bytes after every case (10.9k cases)."),
+        note=TB + "Dispatch behind the gate is abstract (Honest: never touches the password or promotes a connection; tied to the source by regenerated writer tables); statistics counters are not modelled; the Unicode upper-casing normaliser is exact only for 'equals an ASCII name' (validated dynamically).",
+        ref="DESIGN.md section 5 C17"),
     "C04": dict(
         text=("Proof: the skip-list invariant (level 0 strictly sorted by (score, member), every level a sublist of the one below, key index = level 0, length) for every "
               "operation sequence and every tower height, refinement of insert/remove to the sorted-list Spec, engine-level refinement for ZADD/ZINCRBY/ZREM/ZPOP histories, "
